@@ -75,6 +75,7 @@ pub fn check(rep: &Reporter) {
 			let text = format!("[{}]", seq.iter().map(|k| ENTRIES[*k]).collect::<Vec<_>>().join(","));
 			let _e = rt.enter();
 			super::c01::tcp_case(rep, local, rt, "tcp-batch", text.as_bytes(), CONFIGS[ci], false);
+			super::c01::h2_case(rep, local, rt, "tcp-batch", text.as_bytes(), CONFIGS[ci]);
 			if ci == 0 {
 				// batches go through RpcServiceT::batch of every middleware: once more behind the RPC logger
 				super::c01::tcp_case(rep, local, rt, "tcp-batch", text.as_bytes(), CONFIGS[ci], true);
